@@ -149,3 +149,36 @@ Section Codec.
   Definition c_io (st : cstate) : list Z := match st with CLive io _ _ => io | CDead => [] end.
   Definition c_fb (st : cstate) : list Z := match st with CLive _ fb _ => fb | CDead => [] end.
 End Codec.
+
+(* ---- the framing switch of the v5 handshake (connection.py: _handle_startup_response, _handle_auth_response,
+   _enable_compression, _enable_checksumming).  The peer writes every segment after its answer to STARTUP (READY or
+   AUTHENTICATE) in the compressed format iff a compression was announced in STARTUP; the codec the connection reads
+   them with is chosen by _enable_checksumming from `self.compressor` AT THAT MOMENT. *)
+Record hstate := mkHs {
+  hs_negotiated : bool;        (* self._compressor set by _handle_options_response = COMPRESSION sent in STARTUP *)
+  hs_compressor : bool;        (* self.compressor set *)
+  hs_codec : option bool       (* None: no checksumming; Some c: self._segment_codec with compression = c *)
+}.
+
+Definition enable_compression (s : hstate) : hstate :=        (* if self._compressor: self.compressor = self._compressor *)
+  if hs_negotiated s then mkHs true true (hs_codec s) else s.
+
+Definition enable_checksumming (s : hstate) : hstate :=       (* segment_codec_lz4 if self.compressor else ..._no_compression *)
+  mkHs (hs_negotiated s) (hs_compressor s) (Some (hs_compressor s)).
+
+Inductive hreply := RReady | RAuthenticate | RAuthSuccess.
+
+Definition on_reply (v5 : bool) (r : hreply) (s : hstate) : hstate :=
+  match r with
+  | RReady | RAuthenticate =>                                 (* both branches: _enable_compression(); then checksumming for v5 *)
+    let s1 := enable_compression s in if v5 then enable_checksumming s1 else s1
+  | RAuthSuccess => enable_compression s
+  end.
+
+Definition hs_init (negotiated : bool) : hstate := mkHs negotiated false None.
+
+(* correspondence: (checksumming on, codec compressed, compressor set) as 0/1 after the reply *)
+Definition hs_obs (s : hstate) : Z * Z * Z :=
+  (match hs_codec s with Some _ => 1 | None => 0 end,
+   match hs_codec s with Some true => 1 | _ => 0 end,
+   if hs_compressor s then 1 else 0).
